@@ -153,16 +153,40 @@ class Origin:
             pass
 
 
-def read_quiet(sock, quiet=0.5, limit=30.0, first=8.0):
+def _incomplete_http(buf):
+    """Waiting hint only (never a verdict): does buf end inside an HTTP message whose head announces more bytes?"""
+    import re
+    raw = bytes(buf)
+    while raw.startswith(b'HTTP/1.'):
+        head, sep, rest = raw.partition(b'\r\n\r\n')
+        if not sep:
+            return True
+        m = re.search(rb'(?im)^content-length:\s*(\d+)\s*$', head)
+        if re.search(rb'(?im)^transfer-encoding:\s*chunked\s*$', head):
+            end = rest.find(b'0\r\n\r\n')
+            if end < 0:
+                return True
+            raw = rest[end + 5:]
+        elif m:
+            n = int(m.group(1))
+            if len(rest) < n:
+                return True
+            raw = rest[n:]
+        else:
+            return False
+    return False
+
+
+def read_quiet(sock, quiet=0.5, limit=60.0, first=8.0, patient=20.0):
     """Wait up to `first` seconds for the first byte (or the close), then read until the peer has been quiet for `quiet`
-    seconds or closed.  -> (bytes, eof)"""
+    seconds or closed.  While what has arrived ends in the middle of an HTTP message that announces its length, the quiet
+    window is `patient` seconds instead, so that a loaded machine does not cut a long transfer short.  -> (bytes, eof)"""
     buf = bytearray()
     t0 = time.time()
     sock.settimeout(first)
     while time.time() - t0 < limit:
         try:
             d = sock.recv(1 << 16)
-            sock.settimeout(quiet)
         except socket.timeout:
             return bytes(buf), False
         except OSError:
@@ -170,6 +194,7 @@ def read_quiet(sock, quiet=0.5, limit=30.0, first=8.0):
         if not d:
             return bytes(buf), True
         buf += d
+        sock.settimeout(patient if _incomplete_http(buf) else quiet)
     return bytes(buf), False
 
 
